@@ -37,6 +37,9 @@ pub struct RScript {
     pub pauses: Vec<usize>,
     /// (read-call index, fault): that call fails and transfers nothing
     pub faults: Vec<(usize, Fault)>,
+    /// (stream offset, fault): deliveries stop short of the offset, and the first call that would deliver the byte at
+    /// it fails once and transfers nothing (a fault tied to a place in the stream, whatever the caller's read pattern)
+    pub pos_faults: Vec<(usize, Fault)>,
 }
 
 impl RScript {
@@ -47,7 +50,7 @@ impl RScript {
         RScript { rest: k, ..Default::default() }
     }
     pub fn is_whole(&self) -> bool {
-        self.chunks.is_empty() && self.rest == 0 && self.pauses.is_empty() && self.faults.is_empty()
+        self.chunks.is_empty() && self.rest == 0 && self.pauses.is_empty() && self.faults.is_empty() && self.pos_faults.is_empty()
     }
     pub fn to_j(&self) -> J {
         json!({
@@ -57,6 +60,10 @@ impl RScript {
             "faults": self.faults.iter().map(|(i, f)| match f {
                 Fault::Interrupted => json!({"call": i, "interrupted": true}),
                 Fault::Hard(k) => json!({"call": i, "hard": k}),
+            }).collect::<Vec<_>>(),
+            "pos_faults": self.pos_faults.iter().map(|(i, f)| match f {
+                Fault::Interrupted => json!({"at": i, "interrupted": true}),
+                Fault::Hard(k) => json!({"at": i, "hard": k}),
             }).collect::<Vec<_>>(),
         })
     }
@@ -71,7 +78,16 @@ impl RScript {
                 faults.push((call, Fault::Hard(f.get("hard").and_then(|v| v.as_u64()).ok_or("fault.hard")? as u8)));
             }
         }
-        Ok(RScript { chunks: arr("chunks")?, rest: j.get("rest").and_then(|v| v.as_u64()).ok_or("rscript.rest")? as usize, pauses: arr("pauses")?, faults })
+        let mut pos_faults = Vec::new();
+        for f in j.get("pos_faults").and_then(|v| v.as_array()).map(|a| a.to_vec()).unwrap_or_default() {
+            let at = f.get("at").and_then(|v| v.as_u64()).ok_or("pos_fault.at")? as usize;
+            if f.get("interrupted").is_some() {
+                pos_faults.push((at, Fault::Interrupted));
+            } else {
+                pos_faults.push((at, Fault::Hard(f.get("hard").and_then(|v| v.as_u64()).ok_or("pos_fault.hard")? as u8)));
+            }
+        }
+        Ok(RScript { chunks: arr("chunks")?, rest: j.get("rest").and_then(|v| v.as_u64()).ok_or("rscript.rest")? as usize, pauses: arr("pauses")?, faults, pos_faults })
     }
 }
 
@@ -104,6 +120,7 @@ pub struct SimReader {
     script: RScript,
     chunk_idx: usize,
     pauses_done: Vec<bool>,
+    pos_faults_done: Vec<bool>,
     pub calls: usize,
     pub log: Vec<ReadLog>,
     pub keep_log: bool,
@@ -132,6 +149,7 @@ pub struct ReadStats {
 impl SimReader {
     pub fn new(data: Arc<Vec<u8>>, script: RScript) -> Self {
         let np = script.pauses.len();
+        let npf = script.pos_faults.len();
         let total = data.len();
         SimReader {
             data,
@@ -140,6 +158,7 @@ impl SimReader {
             script,
             chunk_idx: 0,
             pauses_done: vec![false; np],
+            pos_faults_done: vec![false; npf],
             calls: 0,
             log: Vec::new(),
             keep_log: true,
@@ -217,6 +236,26 @@ impl Read for SimReader {
             self.record(buf.len(), pos_before, ROut::End);
             return Ok(0);
         }
+        // a fault tied to a place in the stream
+        for i in 0..self.script.pos_faults.len() {
+            if self.script.pos_faults[i].0 as u64 == self.pos && !self.pos_faults_done[i] {
+                self.pos_faults_done[i] = true;
+                match self.script.pos_faults[i].1.clone() {
+                    Fault::Interrupted => {
+                        self.stats.interrupted += 1;
+                        self.record(buf.len(), pos_before, ROut::Interrupted);
+                        return Err(io::Error::new(io::ErrorKind::Interrupted, "sim: interrupted"));
+                    }
+                    Fault::Hard(k) => {
+                        let token = self.next_token;
+                        self.next_token += 1;
+                        self.stats.hard += 1;
+                        self.record(buf.len(), pos_before, ROut::Hard(k, token));
+                        return Err(sim_error(FAULT_KINDS[k as usize % FAULT_KINDS.len()], token));
+                    }
+                }
+            }
+        }
         // temporary EOF at a scripted offset
         for (i, off) in self.script.pauses.iter().enumerate() {
             if *off as u64 == self.pos && !self.pauses_done[i] {
@@ -239,6 +278,11 @@ impl Read for SimReader {
         // never run past a pending pause offset
         for (i, off) in self.script.pauses.iter().enumerate() {
             if !self.pauses_done[i] && (*off as u64) > self.pos {
+                n = n.min(*off as u64 - self.pos);
+            }
+        }
+        for (i, (off, _)) in self.script.pos_faults.iter().enumerate() {
+            if !self.pos_faults_done[i] && (*off as u64) > self.pos {
                 n = n.min(*off as u64 - self.pos);
             }
         }
